@@ -1,7 +1,7 @@
 """C05 - children(), parent(), parents() describe the real process tree (any parent-link graph).
 
 Generated process tables with arbitrary ppid assignments (forests, self-loops, cycles, unlisted
-parents), arbitrary start-tick orderings incl. ties, mid-walk vanishes, recycled caller pid.
+parents), arbitrary start-tick orderings incl. ties, mid-walk vanishes, recycled caller pid; histories of such tables seen by long-lived Process objects (pids recycled repeatedly).
 Termination is decided logically by a settrace line budget, not by wall time.
 """
 import itertools
@@ -18,13 +18,18 @@ RULE = ("one case = (process table with ppid function + start ticks, caller, opt
         "parents() are compared with a 20-line reference written from the statement. non-trivial = the graph has a cycle, a "
         "self-loop, a child older than the caller, an unlisted parent, a mid-walk vanish or a recycled caller; distinct by case hash. Live part (real kernel): a 5-process tree of real children compared "
         "with an independent reader of /proc/*/stat before and after an intermediate node is killed (re-parenting), Process objects "
-        "made before os.fork() asked from the forked child, and children started within the clock tick their parent was created in")
+        "made before os.fork() asked from the forked child, and children started within the clock tick their parent was created in. "
+        "Histories: Process objects are made once and KEPT while the table changes (exits with/without re-parenting, spawns on free and "
+        "re-used pids with start ticks before/at/after the holders', a pid re-used two or more times); after every mutation every kept "
+        "object is asked all four calls and compared with the reference for its incarnation on the table as it is then; exhaustive over "
+        "all sequences of 3 successive occupants of one pid next to a kept caller, random otherwise")
 ASSUMPTIONS = [
     "result order is not promised; results are compared as sets plus a no-duplicates check",
     "parents() is asserted only when the reference chain is finite (the statement promises termination for children() only); an infinite chain is cut by the line budget and not judged",
     "for the lowest listed pid parent() is only required to be None or the statement's answer (the code's lowest-PID stop)",
     "mid-walk vanish: result must lie between the reference on the table before and after the vanish, no duplicates, never the caller",
     "termination verdict = more than 40000*(n+2) traced lines inside one children() call",
+    "histories: a kept object whose process exited is judged only once its pid is listed again with another start tick (NoSuchProcess demanded); pid free, or re-used within the same tick (indistinguishable by pid + start), is asked but not judged",
 ]
 REQUIRED_COUNTERS = ["children_calls_checked", "cyclic_graphs_walked"]
 SHARD_TIMEOUT = 1800
@@ -144,6 +149,8 @@ def traced(fn, budget):
 
 
 def run_case(case, acc):
+    if case.get("kind") == "history":
+        return run_history(case, acc)
     env = setup()
     ps, vkernel, ProcTable = env["ps"], env["vkernel"], env["ProcTable"]
     procs = {int(k): tuple(v) for k, v in case["procs"].items()}
@@ -464,6 +471,259 @@ def gen_random(rng):
     return case
 
 
+# ---- histories: the same Process objects are asked again and again while the table changes under them -------------
+
+def has_loop(procs):
+    for p in procs:
+        seen, cur = set(), p
+        while cur in procs and cur not in seen:
+            seen.add(cur)
+            cur = procs[cur][0]
+        if cur in procs:
+            return True
+    return False
+
+
+def run_history(case, acc):
+    """One case = an initial table, the PIDs for which a Process object is made and KEPT, and a list of mutations
+    (["exit", pid] / ["spawn", pid, ppid, start, hold]).  After every mutation every kept object is asked children(),
+    children(recursive=True), parent() and parents(); the answers are compared with the reference evaluated on the table as it
+    is now, for the incarnation (pid, start tick) the object was made for: alive -> the statement's answer, pid re-used by
+    another incarnation -> NoSuchProcess, pid not listed -> not judged.  What an object saw at earlier calls must not matter."""
+    env = setup()
+    ps, vkernel, ProcTable = env["ps"], env["vkernel"], env["ProcTable"]
+    t = ProcTable()
+    t.reparent = case.get("reparent", False)
+    cur = {}
+    incarnations = {}
+
+    def spawn(pid, pp, st):
+        t.spawn(pid, st, ppid=pp, comm=nasty_comm(pid))
+        cur[pid] = (pp, st)
+        incarnations.setdefault(pid, []).append(st)
+
+    for pid, (pp, st) in sorted((int(k), tuple(v)) for k, v in case["procs"].items()):
+        spawn(pid, pp, st)
+    vk = vkernel.VK()
+    vk.table = t
+    vk.mount("/vproc", t)
+    viols = []
+    feats = set()
+    held = []           # [pid, start, Process, {pids this object once had to reject as older look-alike children}, its process still runs]
+    done = []
+
+    def call(fn, trace, budget):
+        try:
+            return ("ok", traced(fn, budget) if trace else fn())
+        except Budget:
+            return ("budget", None)
+        except ps.NoSuchProcess as e:
+            return ("NoSuchProcess", e.pid)
+        except ps.Error as e:
+            return (type(e).__name__, getattr(e, "pid", None))
+        except Exception as e:  # noqa: BLE001
+            return ("exc:" + type(e).__name__, str(e)[:200])
+
+    def queries(pr):
+        return (("children", lambda: pr.children()), ("children_rec", lambda: pr.children(recursive=True)),
+                ("parent", lambda: pr.parent()), ("parents", lambda: pr.parents()))
+
+    def pids_of(name, r):
+        if name == "parent":
+            return [] if r is None else [r.pid]
+        return [x.pid for x in r]
+
+    def check_all():
+        procs = dict(cur)
+        if not procs:
+            return
+        trace = has_loop(procs)
+        budget = 40000 * (len(procs) + 2)
+        lowest = min(procs)
+        ctx = f"history procs={case['procs']} reparent={t.reparent} steps so far={done} table now={procs}"
+        for h in held:
+            pid, st, pr, older_seen, alive = h
+            if not alive and pid in procs and procs[pid][1] == st:
+                # the object's process exited and the pid was taken by a process started in the same tick: (pid, start tick) is all
+                # there is to tell them apart, so either answer (NoSuchProcess / the new process's tree) is accepted
+                acc.count("history_same_tick_reincarnation_not_judged")
+                continue
+            if pid not in procs:
+                # the object's process is gone and its pid free: nothing promised; still asked, so that the object is in
+                # whatever state such a call leaves behind when the pid comes back
+                for name, fn in queries(pr)[:2]:
+                    r = call(fn, trace, budget)
+                    acc.count("history_calls_on_exited_callers_not_judged")
+                    if r[0].startswith("exc:") or r[0] == "budget":
+                        viols.append((f"{name}_raised:{r[0]}:history:exited_caller", ctx + f" object=({pid},{st}) -> {r}"))
+                continue
+            if procs[pid][1] != st:
+                feats.add("recycled_caller")
+                for name, fn in queries(pr):
+                    ps.pids()
+                    r = call(fn, trace, budget)
+                    acc.count("recycled_caller_calls")
+                    acc.count("history_calls_checked")
+                    if r[0] != "NoSuchProcess":
+                        mech = f"recycled_caller_no_NSP:{name}:history"
+                        if pid == lowest and name in ("parent", "parents") and r[0] == "ok" and r[1] in (None, []):
+                            mech = "recycled_lowest_listed_pid_parent_shortcut"
+                        viols.append((mech, ctx + f" object=({pid},{st}) -> {r[0]}:{str(r[1])[:100]}"))
+                continue
+            octx = ctx + f" object=({pid},{st})"
+            for name, fn in queries(pr):
+                if name in ("parent", "parents"):
+                    ps.pids()       # fresh lowest-pid knowledge (see run_case)
+                if name == "children":
+                    want = sorted(ref_children(procs, pid, False))
+                elif name == "children_rec":
+                    want = sorted(ref_children(procs, pid, True))
+                elif name == "parent":
+                    w = ref_parent(procs, pid)
+                    want = [] if w is None else [w]
+                else:
+                    want = ref_parents(procs, pid, lowest)
+                    if want is None:
+                        acc.count("parents_infinite_chain_not_judged")
+                        continue
+                r = call(fn, trace, budget)
+                acc.count("history_calls_checked")
+                if name.startswith("children"):
+                    acc.count("children_calls_checked")
+                    if trace:
+                        acc.count("cyclic_graphs_walked")
+                if r[0] == "budget":
+                    viols.append((f"nontermination:{name}:history", octx + f" exceeded {budget} lines"))
+                    continue
+                if r[0] != "ok":
+                    viols.append((f"{name}_raised:{r[0]}:history", octx + f" -> {r}"))
+                    continue
+                got = pids_of(name, r[1])
+                if name.startswith("children"):
+                    if len(got) != len(set(got)):
+                        viols.append((f"{name}_duplicates:history", octx + f" got={got}"))
+                    got = sorted(set(got))
+                    below = {pid} | (set(want) if name == "children_rec" else set())
+                    older_seen.update(p for p, (pp, s2) in procs.items() if pp in below and s2 < st and p not in below)
+                ok = got == want
+                if name == "parent" and pid == lowest and got == []:
+                    ok = True
+                if ok:
+                    continue
+                mech = f"{name}_wrong:history"
+                if name.startswith("children") and pid in got:
+                    mech = f"{name}_contains_caller:history"
+                elif name.startswith("children") and any(procs[p][1] < st for p in set(got) - set(want) if p in procs):
+                    mech += ":older_process_returned"
+                # does an object made now, for the same process, give the statement's answer?
+                fr = call(dict(queries(ps.Process(pid)))[name], trace, budget)
+                if fr[0] == "ok" and (sorted(set(pids_of(name, fr[1]))) if name.startswith("children") else pids_of(name, fr[1])) == want:
+                    mech += ":answer_depends_on_what_the_same_object_saw_before"
+                    lost = set(want) - set(got)
+                    if name.startswith("children") and lost & older_seen:
+                        mech += ":pid_of_a_once_rejected_older_lookalike_now_a_real_child"
+                    elif any(len(incarnations.get(p, ())) > 1 for p in set(want) ^ set(got)):
+                        mech += ":pid_recycled_since"
+                viols.append((mech, octx + f" got={got} want={want} fresh object -> {fr[0]}:"
+                              f"{pids_of(name, fr[1]) if fr[0] == 'ok' else fr[1]}"))
+
+    with vk:
+        ps.process_iter.cache_clear()
+        ps.boot_time()
+        for pid in case["hold"]:
+            held.append([pid, cur[pid][1], ps.Process(pid), set(), True])
+        check_all()
+        for step in case["steps"]:
+            if step[0] == "exit":
+                if step[1] not in cur:
+                    continue
+                t.remove(step[1])
+                cur.pop(step[1])
+                for h in held:
+                    if h[0] == step[1]:
+                        h[4] = False
+                for p, q in t.procs.items():        # re-parenting, if the table does it
+                    cur[p] = (q.ppid, q.start)
+            else:
+                _, pid, pp, st, hold = step
+                if pid in cur:
+                    continue
+                if len(incarnations.get(pid, ())) >= 1:
+                    feats.add("pid_recycled")
+                if len(incarnations.get(pid, ())) >= 2:
+                    feats.add("pid_recycled_twice_or_more")
+                    acc.count("history_pids_recycled_twice_or_more")
+                spawn(pid, pp, st)
+                if hold:
+                    held.append([pid, st, ps.Process(pid), set(), True])
+            done.append(step)
+            acc.count("history_mutations_followed")
+            check_all()
+    if any(h[3] for h in held):
+        feats.add("older_lookalike_child_seen_by_a_kept_object")
+        acc.count("histories_with_older_lookalike_child_seen_by_a_kept_object")
+    acc.count("histories_run")
+    acc.case(case, bool(feats), viols)
+
+
+SLOT_ALPHABET = [None, (5, 50), (5, 100), (5, 150), (1, 150), (7, 150), (7, 250)]
+
+
+def small_histories():
+    """Exhaustive: caller 5 (start 100) under 1, a process 7 that names pid 6 as parent, and every sequence of 3 successive
+    occupants of pid 6 (nobody / child of 5 older, same tick, younger / child of 1 / child of its own child 7)."""
+    for seq in itertools.product(SLOT_ALPHABET, repeat=3):
+        steps, occupied = [], False
+        for occ in seq:
+            if occupied:
+                steps.append(["exit", 6])
+                occupied = False
+            if occ is not None:
+                steps.append(["spawn", 6, occ[0], occ[1], True])
+                occupied = True
+        yield dict(kind="history", procs={"1": [0, 1], "5": [1, 100], "7": [6, 200]}, hold=[5, 7], steps=steps, reparent=False)
+
+
+def gen_history(rng):
+    pool = rng.sample(range(2, 40), rng.choice([3, 4, 5, 7]))
+    ticks = [50, 100, 100, 150, 200, 250]
+    monotone = rng.random() < 0.4         # start ticks follow a clock, as a kernel's do (ties possible)
+    clock = [100]
+
+    def start():
+        if monotone:
+            clock[0] += rng.choice([0, 1, 10])
+            return clock[0]
+        return rng.choice(ticks)
+    procs = {}
+    if rng.random() < 0.75:
+        procs["1"] = [0, 1]
+    for p in rng.sample(pool, rng.randrange(1, len(pool))):
+        procs[str(p)] = [rng.choice(pool + [0, 1, 1]), start()]
+    live = {int(k) for k in procs}
+    hold = sorted(live)
+    used = set(live)
+    steps = []
+    for _ in range(rng.choice([4, 8, 12])):
+        free = [p for p in pool if p not in live]
+        if free and (rng.random() < 0.55 or len(live) < 2):
+            again = [p for p in free if p in used]
+            pid = rng.choice(again) if again and rng.random() < 0.8 else rng.choice(free)
+            heldlive = [p for p in hold if p in live]
+            pp = rng.choice(heldlive) if heldlive and rng.random() < 0.6 else rng.choice(pool + [0, 1])
+            h = rng.random() < 0.5
+            steps.append(["spawn", pid, pp, start(), h])
+            live.add(pid)
+            used.add(pid)
+            if h:
+                hold.append(pid)
+        elif live:
+            pid = rng.choice(sorted(live))
+            steps.append(["exit", pid])
+            live.discard(pid)
+    return dict(kind="history", procs=procs, hold=sorted(set(int(k) for k in procs)), steps=steps, reparent=rng.random() < 0.4)
+
+
 # ---- live kernel: a real process tree, fork from a process that holds Process objects, same-tick children --------
 
 TREE_SCRIPT = r"""
@@ -679,6 +939,8 @@ def plan(tier, seed):
     shards = [dict(kind="small", part=i, parts=nparts) for i in range(nparts)]
     for s, c in harness.split_range(nrand, nparts):
         shards.append(dict(kind="rand", seed=seed, start=s, count=c))
+    for s, c in harness.split_range(200 if tier == "quick" else 6000, 8 if tier == "quick" else 24):
+        shards.append(dict(kind="hist", seed=seed, start=s, count=c))
     shards.append(dict(kind="live", ticks=25 if tier == "quick" else 200))
     shards.append(dict(kind="deep"))
     return shards
@@ -709,7 +971,13 @@ def run_shard(shard):
             for case in [dict(procs={"1": [0, 1], "5": [1, 100], "6": [5, 200]}, caller=5, recycle=True),
                          dict(procs={"1": [0, 1], "5": [6, 100], "6": [5, 200]}, caller=5, recycle=True)]:
                 run_case(case, acc)
+        for i, case in enumerate(small_histories()):
+            if i % shard["parts"] == shard["part"]:
+                run_case(case, acc)
         acc.exhaustive = True
+    elif k == "hist":
+        for i in range(shard["start"], shard["start"] + shard["count"]):
+            run_case(gen_history(harness.rng_for(shard["seed"], "c05hist", i)), acc)
     elif k == "deep":
         # "any number of processes": a chain deeper than the interpreter's recursion limit, a wide fan-out, and a chain whose
         # members were started (= are listed) in the opposite order of their pids
